@@ -114,3 +114,29 @@ V('C07', 'b-chirp-refactor', DSF, 'DataStream.add_constant_signal', 'chirp_phase
 V('C07', 'b-keywords-order', WFF, 'get_waterfall_from_raw', 'fftlength=fftlength, int_factor=int_factor', 'int_factor=int_factor, fftlength=fftlength', kind='benign')
 V('C07', 'b-reader-rewrite', RUF, 'get_raw_params', 'center_freq - (start_chan + (num_chans - 1) / 2) * chan_bw', 'center_freq - start_chan * chan_bw - 0.5 * (num_chans - 1) * chan_bw', kind='benign')
 V('C07', 'b-fft-method', WFF, 'get_pfb_waterfall', 'XX_psd.sum(axis=1)', 'xp.sum(XX_psd, axis=1)', kind='benign')
+
+# ------------------------------------------------------------------ C08
+PFF = 'voltage/polyphase_filterbank.py'
+V('C08', 'half-plus-one', PFF, 'PolyphaseFilterbank.channelize', '[:, 0:self.num_branches // 2]', '[:, 0:self.num_branches // 2 + 1]')
+V('C08', 'norm-B', PFF, 'PolyphaseFilterbank.channelize', '/ self.num_branches ** 0.5', '/ self.num_branches')
+V('C08', 'fft-axis0', PFF, 'PolyphaseFilterbank.channelize', 'axis=1', 'axis=0')
+V('C08', 'cache-after-frontend', PFF, 'PolyphaseFilterbank.channelize',
+  "        self.cache = x[-self.num_taps * self.num_branches:]\n    x = pfb_frontend(x, self.window, self.num_taps, self.num_branches)",
+  "    x0 = x\n    x = pfb_frontend(x, self.window, self.num_taps, self.num_branches)\n    if cache:\n        self.cache = x[-self.num_taps * self.num_branches:]")
+V('C08', 'cache-off-by-one', PFF, 'PolyphaseFilterbank.channelize', 'x[-self.num_taps * self.num_branches:]', 'x[-self.num_taps * self.num_branches + 1:]')
+V('C08', 'cache-always', PFF, 'PolyphaseFilterbank.channelize', 'if cache:\n        if self.cache is not None:', 'if True:\n        if self.cache is not None:')
+V('C08', 'cache-prepend-order', PFF, 'PolyphaseFilterbank.channelize', 'xp.concatenate([self.cache, x])', 'xp.concatenate([x, self.cache])')
+V('C08', 'frontend-abs', PFF, 'pfb_frontend', 'x_weighted = x_p[t:t + num_taps, :] * h_p', 'x_weighted = xp.abs(x_p[t:t + num_taps, :]) * h_p')
+V('C08', 'frontend-window-len', PFF, 'pfb_frontend', 'x_p[t:t + num_taps, :]', 'x_p[t:t + num_taps - 1, :]')
+V('C08', 'frontend-sum-axis', PFF, 'pfb_frontend', 'xp.sum(x_weighted, axis=0)', 'xp.sum(x_weighted, axis=1)')
+V('C08', 'frontend-rows', PFF, 'pfb_frontend', 'for t in range(0, (W - 1) * num_taps):', 'for t in range(0, (W - 1) * num_taps - 1):')
+V('C08', 'frontend-float-buffer', PFF, 'pfb_frontend', ', dtype=xp.result_type(x_p, h_p))', ')')
+V('C08', 'frontend-fixed-dtype', PFF, 'pfb_frontend', 'dtype=xp.result_type(x_p, h_p)', 'dtype=float')
+V('C08', 'window-no-scale', PFF, 'get_pfb_window', 'window *= num_taps * num_branches', 'window *= num_taps')
+V('C08', 'window-cutoff', PFF, 'get_pfb_window', 'cutoff=1.0 / num_branches', 'cutoff=2.0 / num_branches')
+V('C08', 'foreign-cache-writer', PFF, 'PolyphaseFilterbank.estimate_channelized_stds', 'rng = xp.random.default_rng(seed)', 'rng = xp.random.default_rng(seed)\n    self.cache = None')
+V('C08', 'class-level-cache', PFF, 'PolyphaseFilterbank', 'def _reset_cache(self):', 'shared = []\n\n    def _reset_cache(self):')
+V('C08', 'b-frontend-rename', PFF, 'pfb_frontend', 'x_weighted = x_p[t:t + num_taps, :] * h_p\n        x_summed[t, :] = xp.sum(x_weighted, axis=0)', 'xw = h_p * x_p[t:num_taps + t, :]\n        x_summed[t, :] = xw.sum(axis=0)', kind='benign')
+V('C08', 'b-W-floordiv', PFF, 'pfb_frontend', 'W = int(len(x) / num_taps / num_branches)', 'W = int(len(x) / (num_branches * num_taps))', kind='benign')
+V('C08', 'b-norm-sqrt', PFF, 'PolyphaseFilterbank.channelize', '/ self.num_branches ** 0.5', '/ xp.sqrt(self.num_branches)', kind='benign')
+V('C08', 'b-dtype-other', PFF, 'pfb_frontend', 'dtype=xp.result_type(x_p, h_p)', 'dtype=(x_p[0, 0] * h_p[0, 0]).dtype', kind='benign')
